@@ -411,7 +411,9 @@ def sort_issues(issues, reverse=False):
             if key in int_sort_list:
                 result.append(d.get(key, -1))
             else:
-                result.append(d.get(key, ""))
+                # Labels may be numbers (columns of a file without a header): keep text and numbers apart.
+                value = d.get(key, "")
+                result.append((0, value) if isinstance(value, str) else (1, value))
         return tuple(result)
 
     issues = sorted(issues, key=_get_keys, reverse=reverse)
